@@ -107,8 +107,8 @@ func enumShift(g *group, sel *selector, emit func(Case)) {
 			red := rowBool(r, "red")
 			neg := ck.Signed && int64(cnt.u64()) < 0
 			for _, gck := range kindsOf(ck) {
-				// in the quick tier the complete product uses the count types int, uint and uint8
-				redc := red && (gck.Name == "int" || gck.Name == "uint" || gck.Name == "uint8")
+				// in the quick tier the complete product uses the count types int and uint
+				redc := red && (gck.Name == "int" || gck.Name == "uint")
 				for _, op := range []string{"shl", "shr"} {
 					base := Case{Cls: "int", Op: op, T: gk.Name, T2: gck.Name, A: at, B: ct, AC: true,
 						BC: !neg && cnt.u64() < 1<<15, RT: gk.Name, Red: redc,
